@@ -598,22 +598,28 @@ func (r *runningStep) run() {
 		return
 	}
 
-	var newState step.RunningStepState
+	enabledOutput := any(map[any]any{"enabled": true})
+	// End Enabling with resolved output, and start executing. Whether the step waits for its items is
+	// decided in the same critical section that publishes the new stage and state: if the items arrived
+	// in between, the step would show as waiting for input while it works on them.
 	r.lock.Lock()
+	previousStage := string(r.currentStage)
+	r.currentStage = StageIDExecute
 	if !r.executionInputAvailable {
-		newState = step.RunningStepStateWaitingForInput
+		r.currentState = step.RunningStepStateWaitingForInput
 		waitingForInput = true
 	} else {
-		newState = step.RunningStepStateRunning
+		r.currentState = step.RunningStepStateRunning
 	}
 	r.lock.Unlock()
-	enabledOutput := any(map[any]any{"enabled": true})
-	// End Enabling with resolved output, and start starting
-	r.transitionStageWithOutput(
-		StageIDExecute,
-		newState,
+	r.stageChangeHandler.OnStageChange(
+		r,
+		&previousStage,
 		schema.PointerTo("resolved"),
 		&enabledOutput,
+		string(StageIDExecute),
+		false,
+		&r.wg,
 	)
 	r.stageChangeHandler.OnStageChange(
 		r,
